@@ -150,6 +150,14 @@ CLAIMED = {
             'record layout. Text-level parsing, DYR mapping, 3-winding transformers and xlsx/json round trips are not reachable.',
             'DESIGN.md 4/C13', 'format layouts transcribed from the format descriptions; System.add / Bus.get contracts',
             'contract-based deductive verification: per-record call-site obligations by symbolic execution + SMT'),
+    'C05': ('proof',
+            'Partial: TDS.test_init returns True iff every checked residual entry is a number below tol (both directions), and '
+            'raises the exit code on failure; TDS.init copies the power-flow solution into the leading slots of x and y and '
+            'resets the time before the dynamic models are addressed, records the test result, sets initialized; block initial '
+            'values balance the block equations (24 block instantiations). Per-model equilibria, power hand-over and the '
+            'iterative initialiser are not decided.',
+            'DESIGN.md 4/C05', 'callee frames assumed; block flag semantics from C09',
+            'contract-based deductive verification: symbolic execution + SMT, block steady-state identities'),
 }
 
 ALL = ['C%02d' % i for i in range(1, 21)]
